@@ -199,7 +199,8 @@ EXTRA_TEXT = {
            "C01_snap_stage_identity proves it is the identity (no repeat pass, no raise) on every map whose decidable quietMap holds, and the oracle evaluates quietMap on the clipped "
            "pieces of every valid map of S01 (all quiet). The node-table and branch-label LOOPS are regenerated as well (C05_generated_*), and so is the whole snapping pass "
            "(C06_generated_snap_traces): the stage C01_snap_stage_identity speaks about is regenerated code. C01_generated_pipeline: the regenerated orchestration of branches_and_nodes "
-           "(crop before snapping unless already clipped, snapping loop, length filters, noding dispatch, tables) with the regenerated pass inside equals prepare -> SnapL.snapLoop -> Pipeline.finish.",
+           "(crop before snapping unless already clipped, snapping loop, length filters, noding dispatch, tables) with the regenerated pass inside equals prepare -> SnapL.snapLoop -> Pipeline.finish. "
+           "Stream S01-generated runs the regenerated branches_and_nodes end to end (compiled; every fractopo stage regenerated, exact clip / noding in place of GEOS) on valid maps and requires the exact arrangement.",
     "C04": " Added streams: mirror-image traces inside one bounding box; S04-stubs (stubs of 1.05-3 x snap at a host's tip must be branches: exact total length). "
            "C04_pass_stays_within_threshold: one snapping pass adds to a trace only ends strictly within the threshold of it as it was before the pass; C04_cumulative_drag_witness: "
            "the bound is per pass, not cumulative -- known finding F25 (stacked input, target dragged 1.63 x snap), reported as KNOWN-FINDING and recognised by its trigger region only.",
